@@ -87,8 +87,16 @@ pub fn split_budget(kind: &'static str, total: u64, per_unit: u64) -> Vec<crate:
     let mut start = 0;
     while start < total {
         let c = per_unit.min(total - start);
-        v.push(crate::Unit { kind, start, count: c });
+        v.push(crate::Unit { kind, start, count: c, param: 0 });
         start += c;
+    }
+    v
+}
+
+pub fn split_budget_param(kind: &'static str, total: u64, per_unit: u64, param: i64) -> Vec<crate::Unit> {
+    let mut v = split_budget(kind, total, per_unit);
+    for u in v.iter_mut() {
+        u.param = param;
     }
     v
 }
